@@ -184,6 +184,24 @@ def run(c) -> CaseResult:
                     if n not in [a for a in u.args if isinstance(a, Node)]:
                         interesting = True
         res.labels.append(f"{mode}:removed={'0' if not removed else ('1-3' if len(removed) <= 3 else '>3')}")
+    # ---- chained pruning: a helper applied to the *result* of another helper (the retained intermediate must stay unchanged)
+    try:
+        first = prune_non_float_tensors(graph) if c["seed"] % 2 == 0 else prune_same_scale_tensors(graph, RTOLS[1])
+        before = snapshot(first)
+        second_mode = ("samescale", RTOLS[2]) if c["seed"] % 2 == 0 else ("nonfloat", None)
+        exp = model(first, second_mode[0], second_mode[1])
+        pg = prune_same_scale_tensors(first, RTOLS[2]) if second_mode[0] == "samescale" else prune_non_float_tensors(first)
+        if snapshot(first) != before or pg is first:
+            res.fail(f"C19.input-graph-modified:chained-{second_mode[0]}", f"{second_mode[0]} pruning applied to the result of an earlier pruning pass changed (or returned) its input graph")
+        names, aedges = actual(pg)
+        if not exp[2]:
+            if names != exp[0]:
+                res.fail(f"C19.nodes:chained-{second_mode[0]}", f"chained pruning kept {names}, expected {exp[0]}\n{src}")
+            elif any(aedges[n] != exp[1][n] for n in exp[0]):
+                res.fail(f"C19.edges:chained-{second_mode[0]}", f"chained pruning: inputs differ from the model\n{src}")
+        res.labels.append("chained")
+    except Exception as e:  # noqa: BLE001
+        res.fail(exc_bucket("C19.raises:chained", e)[:300], f"{type(e).__name__}: {str(e)[:300]}\n{src}")
     res.nontrivial = interesting
     res.sample = dict(source=src, nodes=len(list(graph.nodes)))
     return res
@@ -194,7 +212,7 @@ CHECK = Check(
     parts=[Part("prune", run, strategy=cases, budget={"quick": 160, "thorough": 4000})],
     rule=("Hypothesis-generated tracked graphs (modules as C18: cat / stack / rotate-half list consumers, keyword tensor arguments, integer "
           "index tensors, views / reshapes / negations / *1.0, multi-output), each pruned five ways: non-float, same-scale at rtol 2^-16, 2^-8, "
-          "2^-2, selected targets (random subset of the targets present). Oracle: representative-map model computed from the input graph "
+          "2^-2, selected targets (random subset of the targets present), plus one chained call (a copying helper applied to the retained result of the other). Oracle: representative-map model computed from the input graph "
           "(kept node list in order, input set of every kept node wherever the removed node occurred - positional, keyword, nested), "
           "graph.lint(), input graph unchanged for the two copying helpers, networkx transitive closure to name lost producer-consumer pairs. "
           "Nodes for which 'exactly one float input' differs between positional and all-input counting are don't-cares (the mode is skipped). "
